@@ -270,6 +270,9 @@ pub fn run(name: &str) -> Option<bool> {
             rt_fails(&BigAdd { a: true, o: Some(vec![0x5A; 20000]) })
         }
         "proto_choice_null" => crate::proto::probe_choice_null(),
+        "proto_len_beyond_input" => crate::proto::probe_malformed(0),
+        "proto_bitvec_short" => crate::proto::probe_malformed(1),
+        "proto_root_seqof" => crate::proto::probe_malformed(2),
         _ => return None,
     })
 }
